@@ -1268,6 +1268,7 @@ fn new_rw<'a>(src: &'a Src, facts: &'a Facts) -> Rw<'a> {
 }
 
 struct EmitCtx<'a> {
+    probe_shard: Option<(usize, usize)>,
     probe_prop: Option<String>,
     probes: bool,
     probe_counter: &'a mut usize,
@@ -1349,6 +1350,11 @@ fn emit_fn(src: &Src, facts: &Facts, spec: &FnSpec, vspec_name: &str, out: &mut 
         }
         let k = *ctx.probe_counter;
         *ctx.probe_counter += 1;
+        if let Some((n, i)) = ctx.probe_shard {
+            if k % n != i {
+                return String::new();
+            }
+        }
         ctx.probe_list.push(json!({"id": k, "fn": spec.key, "pos": what}));
         format!(" proof {{ if vx_probe({k}) {{ assert(false); }} }} ")
     };
@@ -1697,6 +1703,7 @@ fn main() {
     let mut mapp = PathBuf::from("/verif/build/map.json");
     let mut probes = false;
     let mut probe_prop: Option<String> = None;
+    let mut probe_shard: Option<(usize, usize)> = None;
     let mut i = 1;
     while i < args.len() {
         match args[i].as_str() {
@@ -1717,6 +1724,13 @@ fn main() {
                 i += 1;
             }
             "--probes" => probes = true,
+            "--probe-shard" => {
+                let v: Vec<usize> = args[i + 1].split(':').filter_map(|x| x.parse().ok()).collect();
+                if v.len() == 2 && v[0] > 0 {
+                    probe_shard = Some((v[0], v[1]));
+                }
+                i += 1;
+            }
             "--probe-prop" => {
                 probe_prop = Some(args[i + 1].clone());
                 i += 1;
@@ -1728,7 +1742,7 @@ fn main() {
         }
         i += 1;
     }
-    match run(&repo, &verif, &outp, &mapp, probes, probe_prop) {
+    match run(&repo, &verif, &outp, &mapp, probes, probe_prop, probe_shard) {
         Ok(()) => {}
         Err(e) => {
             eprintln!("vx-extract: UNDECIDED: {e}");
@@ -1737,7 +1751,7 @@ fn main() {
     }
 }
 
-fn run(repo: &Path, verif: &Path, outp: &Path, mapp: &Path, probes: bool, probe_prop: Option<String>) -> Result<(), String> {
+fn run(repo: &Path, verif: &Path, outp: &Path, mapp: &Path, probes: bool, probe_prop: Option<String>, probe_shard: Option<(usize, usize)>) -> Result<(), String> {
     // crate-wide facts
     let mut facts = Facts::default();
     let mut all_src: Vec<String> = vec![];
@@ -1794,6 +1808,9 @@ fn run(repo: &Path, verif: &Path, outp: &Path, mapp: &Path, probes: bool, probe_
             "spec" => {
                 let p = verif.join("contracts").join(name);
                 let ds = parse_vspec(&p)?;
+                let modname = format!("m_{}", name.trim_end_matches(".vspec").replace(|c: char| !c.is_alphanumeric(), "_"));
+                let mod_start = out.cur_line() + 1;
+                out.push(&format!("\npub mod {modname} {{\nuse super::*;\n"), Origin::Gen);
                 let mut cur: Option<&Src> = None;
                 for d in &ds {
                     match d {
@@ -1816,11 +1833,13 @@ fn run(repo: &Path, verif: &Path, outp: &Path, mapp: &Path, probes: bool, probe_
                         }
                         Directive::Fn(fs) => {
                             let s = cur.ok_or_else(|| format!("{name}: `fn` before `file`"))?;
-                            let mut ctx = EmitCtx { probe_prop: probe_prop.clone(), probes, probe_counter: &mut probe_counter, probe_list: &mut probe_list };
+                            let mut ctx = EmitCtx { probe_shard, probe_prop: probe_prop.clone(), probes, probe_counter: &mut probe_counter, probe_list: &mut probe_list };
                             emit_fn(s, &facts, fs, name, &mut out, &mut ctx)?;
                         }
                     }
                 }
+                out.push(&format!("\n}} // mod {modname}\npub use {modname}::*;\n"), Origin::Gen);
+                units.push(json!({"module": modname, "vspec": name, "line_start": mod_start, "line_end": out.cur_line()}));
             }
             _ => return Err(format!("ORDER: unknown kind `{kind}`")),
         }
